@@ -1,6 +1,7 @@
 // helpers shared by dsched harnesses
 #pragma once
 #include <unistd.h>
+#include <atomic>
 #include <cstdio>
 #include <string>
 #include "common.h"
@@ -39,6 +40,32 @@ inline void installStuckHandler() {
     for (const auto& e : dsched::trace()) std::printf("STUCKTRACE %s\n", dsched::fmt(e).c_str());
   });
 }
+
+// Element type whose only member is an atomic: constructing an element is an atomic store of its
+// tag and moving it out is an atomic exchange with the moved-from marker -1, so element accesses are
+// scheduling points and appear in the trace. Lifetimes are counted (plain counters: only one
+// thread runs at a time under dsched).
+struct AtomPayload {
+  static long& live() { static long l = 0; return l; }
+  static long& constructed() { static long l = 0; return l; }
+  std::atomic<int> v;
+  AtomPayload() { v.store(-2, std::memory_order_relaxed); ++live(); ++constructed(); }
+  explicit AtomPayload(int x) { v.store(x, std::memory_order_relaxed); ++live(); ++constructed(); }
+  AtomPayload(AtomPayload&& o) noexcept {
+    v.store(o.v.exchange(-1, std::memory_order_relaxed), std::memory_order_relaxed); ++live(); ++constructed();
+  }
+  AtomPayload(const AtomPayload& o) { v.store(o.v.load(std::memory_order_relaxed), std::memory_order_relaxed); ++live(); ++constructed(); }
+  AtomPayload& operator=(AtomPayload&& o) noexcept {
+    v.store(o.v.exchange(-1, std::memory_order_relaxed), std::memory_order_relaxed);
+    return *this;
+  }
+  AtomPayload& operator=(const AtomPayload& o) {
+    v.store(o.v.load(std::memory_order_relaxed), std::memory_order_relaxed);
+    return *this;
+  }
+  ~AtomPayload() { --live(); }
+  int get() const { return v.load(std::memory_order_relaxed); }
+};
 
 }  // namespace dsh
 
